@@ -96,6 +96,11 @@ static sqf::runtime::runtime::result execute_do(sqf::runtime::runtime& runtime, 
             // Readd return value of frame if it had one
             if (val.has_value())
             { context_active.push_value(val.value()); }
+            else if (!context_active.empty())
+            { // A finished block always yields exactly one value to its caller: nil if its last
+              // statement left none (eg. an assignment after a statement separator).
+                context_active.push_value({});
+            }
 
             // Restart loop-run
             continue;
